@@ -4,6 +4,7 @@
 -/
 import Cog.Builder.Vir
 import Cog.Builder.FromAST
+import Cog.Builder.Safe
 namespace Cog.Drv
 open Cog Cog.IR Cog.Builder
 
@@ -13,5 +14,21 @@ def fromastLine (rest : String) : String :=
   | some sx => match IR.Vir.schemasIn sx with
     | none => "bad-vir"
     | some ss => Builder.Vir.outcomeOut (fromAST ss)
+
+/-- `c16pred <schemas>`: the decidable hypotheses of the `_partial` theorems, evaluated by the model:
+    `safe=` (`Safe`, hypothesis of `C16_total_partial`) and `nocr=` (`noOptionalConstRef` on the
+    fields of every derived builder, hypothesis of `C16_cover_partial`) -/
+def c16predLine (rest : String) : String :=
+  match Sexp.parse rest with
+  | none => "bad-sexp"
+  | some sx => match IR.Vir.schemasIn sx with
+    | none => "bad-vir"
+    | some ss =>
+      let nocr := match fromAST ss with
+        | .ok bs => bs.all fun b => match structFieldsOf ss b.for_.ty with
+          | some fs => noOptionalConstRef ss fs
+          | none => false
+        | _ => true
+      s!"safe={Safe ss} nocr={nocr}"
 
 end Cog.Drv
